@@ -272,6 +272,7 @@ Proof.
   - unfold do_keepalive, do_transmit.
     pose proof (Inv_send_staged _ (Inv_set_staged _ (if staged (set_now s (now s + 1)) =? 0 then 1 else staged (set_now s (now s + 1))) H0)).
     destruct (send_staged _) as [[s1 sent] i]. exact H1.
+  - apply Inv_set_staged, H0.
 Qed.
 
 Theorem Inv_reachable evs : Inv (final step init evs).
@@ -740,6 +741,7 @@ Proof.
     destruct (send_staged _) as [[s1 sent] i]. cbn [fst snd o_sent] in *.
     intros Hx. destruct (Hs Hx) as (k0 & Hc & Hi & Ha). exists k0. unfold age in Ha. cbn [now set_staged cur] in *.
     repeat split; [congruence|exact Hi|rewrite An; exact Ha].
+  - intros [].
 Qed.
 
 (* what SendHandshakeInitiation does when it is called *)
@@ -886,6 +888,7 @@ Proof.
   - cbn. discriminate.
   - unfold do_keepalive, do_transmit. pose proof (slots_send_staged (set_staged s (if staged s =? 0 then 1 else staged s))) as (_ & A & _).
     destruct (send_staged _) as [[s1 sent] i]. cbn [fst] in *. rewrite A. auto.
+  - cbn. auto.
 Qed.
 
 (* x was confirmed in the history evs: some earlier event was data received and accepted under x *)
@@ -1107,6 +1110,7 @@ Proof.
   - intros _. reflexivity.
   - unfold do_keepalive, do_transmit. pose proof (slots_send_staged (set_staged s (if staged s =? 0 then 1 else staged s))) as Hs.
     destruct (send_staged _) as [[s1 sent] i]. cbn [fst] in *. eapply next_excl_same; [exact Hs|exact P0].
+  - exact P0.
 Qed.
 
 Theorem next_excludes_previous evs : next (R evs) <> None -> prev (R evs) = None.
@@ -1173,3 +1177,13 @@ Proof.
   - rewrite HR. apply (rotated_out_refused (evs ++ [Restart]) sid i); rewrite <- HR; [exact Ea|rewrite Hk; intros []].
   - unfold step, do_recv. cbn [sessions set_now]. rewrite Ea. reflexivity.
 Qed.
+
+(* ---- an abandoned handshake attempt -------------------------------------------------------------------- *)
+
+(* Giving up a handshake attempt only flushes the staged packets: keys, index table, pending handshake
+   index, spacing and latch are untouched and nothing is sent -- so every later send is judged by
+   initiator_rekeys_after_120_send exactly as if no attempt had been abandoned. *)
+Theorem abandon_only_flushes evs :
+  let s := R evs in
+  step s Abandon = (set_staged (set_now s (now s + 1)) 0, out0).
+Proof. reflexivity. Qed.
